@@ -1,0 +1,227 @@
+//! Verification hooks (feature `verif-hooks`, off by default): a call recorder.
+//!
+//! When the environment variable `OHV_TRACE_FILE` is set, selected public operations append one
+//! JSON line per call (arguments and result, in the array representation) to that file, so that
+//! executions of the crate's own test suite can be validated against an external specification.
+//! Node and edge labels are generic, so they are recorded as equivalence-class numbers (first
+//! occurrence order) computed with the array-level `PartialEq` that the operations already require.
+//! Recording never changes what an operation returns.
+use crate::array::{Array, ArrayKind, NaturalArray};
+use crate::finite_function::FiniteFunction;
+use crate::indexed_coproduct::IndexedCoproduct;
+use crate::strict::hypergraph::Hypergraph;
+use crate::strict::open_hypergraph::OpenHypergraph;
+use num_traits::{One, Zero};
+use std::io::Write;
+use std::sync::Mutex;
+
+static SINK: Mutex<Option<std::fs::File>> = Mutex::new(None);
+
+pub fn enabled() -> bool {
+    std::env::var_os("OHV_TRACE_FILE").is_some()
+}
+
+pub fn emit(line: String) {
+    let Some(path) = std::env::var_os("OHV_TRACE_FILE") else {
+        return;
+    };
+    let mut guard = SINK.lock().unwrap_or_else(|e| e.into_inner());
+    if guard.is_none() {
+        *guard = std::fs::OpenOptions::new().create(true).append(true).open(path).ok();
+    }
+    if let Some(f) = guard.as_mut() {
+        let _ = writeln!(f, "{}", line);
+    }
+}
+
+fn index_json<K: ArrayKind>(a: &K::Index) -> String {
+    let mut out = String::from("[");
+    let mut i = K::I::zero();
+    let n = a.len();
+    let mut first = true;
+    while i < n {
+        if !first {
+            out.push(',');
+        }
+        first = false;
+        out.push_str(&format!("{:?}", a.get(i.clone())));
+        i = i + K::I::one();
+    }
+    out.push(']');
+    out
+}
+
+fn ff_json<K: ArrayKind>(f: &FiniteFunction<K>) -> String {
+    format!("{{\"table\":{},\"target\":{:?}}}", index_json::<K>(&f.table), f.target)
+}
+
+fn ic_json<K: ArrayKind>(c: &IndexedCoproduct<K, FiniteFunction<K>>) -> String {
+    format!("{{\"sources\":{},\"values\":{}}}", ff_json(&c.sources), ff_json(&c.values))
+}
+
+/// class number of every element (first-occurrence order), using equality of one-element arrays;
+/// `seen` carries the representatives found so far so that several arrays share one numbering
+fn classes<K: ArrayKind, T>(a: &K::Type<T>, seen: &mut Vec<K::Type<T>>) -> String
+where
+    K::Type<T>: Array<K, T> + PartialEq,
+{
+    let mut out = String::from("[");
+    let mut i = K::I::zero();
+    let n = a.len();
+    let mut first = true;
+    while i < n {
+        let ix = K::Index::fill(i.clone(), K::I::one());
+        let single = a.gather(ix.get_range(..));
+        let c = match seen.iter().position(|s| *s == single) {
+            Some(p) => p,
+            None => {
+                seen.push(single);
+                seen.len() - 1
+            }
+        };
+        if !first {
+            out.push(',');
+        }
+        first = false;
+        out.push_str(&c.to_string());
+        i = i + K::I::one();
+    }
+    out.push(']');
+    out
+}
+
+fn oh_json<K: ArrayKind, O, A>(
+    f: &OpenHypergraph<K, O, A>,
+    seen_w: &mut Vec<K::Type<O>>,
+    seen_x: &mut Vec<K::Type<A>>,
+) -> String
+where
+    K::Type<K::I>: NaturalArray<K>,
+    K::Type<O>: Array<K, O> + PartialEq,
+    K::Type<A>: Array<K, A>,
+{
+    let h: &Hypergraph<K, O, A> = &f.h;
+    // edge labels have no equality available here: they are recorded as one class per position
+    // of the *first* diagram they appear in (operations only copy them, never compare them)
+    let _ = seen_x;
+    let x_len = h.x.0.len();
+    let mut xs = String::from("[");
+    let mut i = K::I::zero();
+    let mut first = true;
+    while i < x_len {
+        if !first {
+            xs.push(',');
+        }
+        first = false;
+        xs.push('0');
+        i = i + K::I::one();
+    }
+    xs.push(']');
+    format!(
+        "{{\"s\":{},\"t\":{},\"h\":{{\"s\":{},\"t\":{},\"w\":{},\"x\":{}}}}}",
+        ff_json(&f.s),
+        ff_json(&f.t),
+        ic_json(&h.s),
+        ic_json(&h.t),
+        classes::<K, O>(&h.w.0, seen_w),
+        xs
+    )
+}
+
+/// record one binary operation on open hypergraphs (`op` is the event name of the harness)
+pub fn record_binary<K: ArrayKind, O, A>(
+    op: &str,
+    f: &OpenHypergraph<K, O, A>,
+    g: &OpenHypergraph<K, O, A>,
+    result: Option<&OpenHypergraph<K, O, A>>,
+    optional: bool,
+) where
+    K::Type<K::I>: NaturalArray<K>,
+    K::Type<O>: Array<K, O> + PartialEq,
+    K::Type<A>: Array<K, A>,
+{
+    if !enabled() {
+        return;
+    }
+    let mut seen_w = Vec::new();
+    let mut seen_x = Vec::new();
+    let fj = oh_json(f, &mut seen_w, &mut seen_x);
+    let gj = oh_json(g, &mut seen_w, &mut seen_x);
+    let obs = match (result, optional) {
+        (Some(r), true) => format!("{{\"tag\":\"some\",\"val\":{}}}", oh_json(r, &mut seen_w, &mut seen_x)),
+        (Some(r), false) => format!("{{\"tag\":\"val\",\"val\":{}}}", oh_json(r, &mut seen_w, &mut seen_x)),
+        (None, _) => "{\"tag\":\"none\"}".to_string(),
+    };
+    emit(format!(
+        "{{\"op\":\"{}\",\"props\":[\"suite\"],\"backend\":\"suite\",\"profile\":\"suite\",\"args\":{{\"f\":{},\"g\":{}}},\"obs\":{}}}",
+        op, fj, gj, obs
+    ));
+}
+
+// ---------------------------------------------------------------- lax quotient
+
+thread_local! {
+    static IN_HOOK: std::cell::Cell<bool> = const { std::cell::Cell::new(false) };
+}
+pub fn in_hook() -> bool {
+    IN_HOOK.with(|c| c.get())
+}
+pub fn set_in_hook(v: bool) {
+    IN_HOOK.with(|c| c.set(v));
+}
+
+fn ids_json(v: &[crate::lax::NodeId]) -> String {
+    let parts: Vec<String> = v.iter().map(|n| n.0.to_string()).collect();
+    format!("[{}]", parts.join(","))
+}
+
+/// all public fields of a lax open hypergraph; node labels as class numbers (shared through
+/// `reps` between the pre- and the post-state of one call), edge labels as 0
+pub fn lax_json<O: PartialEq + Clone, A>(f: &crate::lax::OpenHypergraph<O, A>, reps: &mut Vec<O>) -> String {
+    let h = &f.hypergraph;
+    let mut classes: Vec<String> = Vec::new();
+    for o in h.nodes.iter() {
+        let c = match reps.iter().position(|r| *r == *o) {
+            Some(p) => p,
+            None => {
+                reps.push(o.clone());
+                reps.len() - 1
+            }
+        };
+        classes.push(c.to_string());
+    }
+    let adj: Vec<String> = h
+        .adjacency
+        .iter()
+        .map(|e| format!("{{\"s\":{},\"t\":{}}}", ids_json(&e.sources), ids_json(&e.targets)))
+        .collect();
+    let edges: Vec<&str> = h.edges.iter().map(|_| "0").collect();
+    format!(
+        "{{\"nodes\":[{}],\"edges\":[{}],\"adj\":[{}],\"ql\":{},\"qr\":{},\"sources\":{},\"targets\":{}}}",
+        classes.join(","),
+        edges.join(","),
+        adj.join(","),
+        ids_json(&h.quotient.0),
+        ids_json(&h.quotient.1),
+        ids_json(&f.sources),
+        ids_json(&f.targets)
+    )
+}
+
+pub fn record_quotient(
+    pre: String,
+    r: &Result<FiniteFunction<crate::array::vec::VecKind>, FiniteFunction<crate::array::vec::VecKind>>,
+    post: String,
+) {
+    let (tag, q) = match r {
+        Ok(q) => ("ok", q),
+        Err(q) => ("err", q),
+    };
+    emit(format!(
+        "{{\"op\":\"lax.quotient.suite\",\"props\":[\"suite\"],\"backend\":\"suite\",\"profile\":\"suite\",\"args\":{{\"pre\":{}}},\"obs\":{{\"tag\":\"{}\",\"val\":{},\"post\":{}}}}}",
+        pre,
+        tag,
+        ff_json::<crate::array::vec::VecKind>(q),
+        post
+    ));
+}
